@@ -1900,6 +1900,13 @@ hdf_xdr_cdf(XDR *xdrs, NC **handlep)
             break;
         case XDR_DECODE:
             if (FAIL == (status = hdf_read_xdr_cdf(xdrs, handlep))) {
+                /* The older description is for files which have no netCDF
+                   style one.  When the file has one (its vgroup was found)
+                   and it could not be read, the file is not quietly
+                   presented through the older description instead: that
+                   shows other names, no attributes and no dimensions. */
+                if ((*handlep)->vgid != 0)
+                    HGOTO_ERROR(DFE_READERROR, FAIL);
                 status = hdf_read_sds_cdf(xdrs, handlep);
                 if (FAIL == status) {
                     HGOTO_ERROR(DFE_BADNDG, FAIL);
